@@ -16,7 +16,7 @@ from fractions import Fraction
 
 getcontext().prec = 80
 
-CONSISTENT_EPS = 1e-13
+CONSISTENT_EPS = 5e-6  # smaller disagreements (per unit of degree) are absorbed by the 1e-5-per-degree tolerance
 
 
 def F(x) -> Fraction:
